@@ -263,7 +263,7 @@ class FakeOS:
             code = s.sys_fail(p, "kill")
         if code:
             raise OSError(code, _os.strerror(code))
-        s.kill(pid, int(sig), sender=p.name)
+        s.kill(pid, int(sig), sender=p.name, sender_proc=p)
         s.tick()
 
     def waitpid(self, pid, options):
